@@ -41,7 +41,7 @@ CHECKS = {
     "C07": dict(
         technique="deterministic simulation: seeded histories inside the PROV-O-expressible space, one seeded blank-node id stream (rdflib.term.uuid4 seam) and hash seed per run, set-based strict comparison with unified()",
         text="Seeded histories biased into the quantifier's space and filtered by an eligibility predicate written from it (names under document-level prefixes, non-empty bundles, one kind per identifier, first two formal arguments, no mention, no PROV class as relation type, anonymous binary-only relations without attributes, value kinds); each eligible state is written in the default TriG syntax and read back: no exception may occur and the strict per-container *set* of records must equal that of unified(). Every run draws its own blank-node identifiers from the run seed, so each seed is one exact TriG order / reader triple order and orders vary across seeds; workers run under different PYTHONHASHSEED values. Evidence, not proof.",
-        note=TRUST + " Interpretation: identified or attributed alternate/specialization/membership (no qualified class in PROV-O) and a plain binary triple restating a qualified relation to the same object are treated as outside 'PROV-O-expressible'.",
+        note=TRUST + " Interpretation: identified or attributed alternate/specialization/membership (no qualified class in PROV-O), elements typed with the name of a PROV record kind, and names whose local part cannot be written as a Turtle prefixed name are treated as outside 'PROV-O-expressible'.",
         ref="DESIGN.md section 4, C07",
     ),
     "C08": dict(
